@@ -89,7 +89,7 @@ def again_dgram(rng, spec: Dict[str, Any]) -> bytes:
 
 def junk_dgram(rng, tag: int, kind: Optional[str] = None) -> bytes:
     kind = kind or rng.choice(["foreign", "truncated", "extended", "bitflip", "unknown_model", "undecodable", "wrong_magic",
-                               "empty"])
+                               "empty", "selfdescribing"])
     v = valid_dgram(rng, tag)
     if kind == "foreign":
         n = rng.choice([0, 1, 2, 3, 100, 158, 159, 160, 164, 165, 166, 167, 168, 169, 400, rng.randrange(0, 401)])
@@ -99,6 +99,27 @@ def junk_dgram(rng, tag: int, kind: Optional[str] = None) -> bytes:
         return b
     if kind == "empty":
         return b""
+    if kind == "selfdescribing":
+        # magic + a header length field that truthfully states the datagram's own (off-list) length: another kind of
+        # Switcher frame, or a valid broadcast cut/extended with its header rewritten
+        import struct
+        from refs.crc import sign
+        r = rng.random()
+        if r < 0.4:
+            n = rng.choice([4, 5, 44, 48, 100, 158, 160, 164, 166, 167, 169, 170, 300, rng.randrange(4, 401)])
+            b = bytearray(b"\xfe\xf0" + rng.randbytes(max(0, n - 2)))
+        elif r < 0.7:
+            b = bytearray(v[: rng.randrange(4, len(v))])
+        else:
+            b = bytearray(v + rng.randbytes(rng.randrange(1, 40)))
+        if len(b) in (159, 165, 168):
+            b += b"\x00"
+        b[2:4] = struct.pack("<H", len(b))
+        if rng.random() < 0.3 and len(b) > 8:
+            b = bytearray(sign(bytes(b[:-4])))          # ... and correctly signed
+            b[2:4] = struct.pack("<H", len(b))
+            b = bytearray(sign(bytes(b[:-4])))
+        return bytes(b)
     if kind == "truncated":
         return v[: len(v) - rng.choice([1, 2, 3, rng.randrange(1, len(v))])]
     if kind == "extended":
@@ -205,6 +226,8 @@ def gen_c06(rng, index: int, systematic: bool) -> Dict[str, Any]:
             body = rng.randbytes(n)
             if magic and n >= 2:
                 body = b"\xfe\xf0" + body[2:]
+                if n >= 4 and rng.random() < 0.5:
+                    body = body[:2] + n.to_bytes(2, "little") + body[4:]      # header length field = real length
             elif not magic and body[:2] == b"\xfe\xf0":
                 body = b"\xfe\xf1" + body[2:]
             if n in (159, 165, 168) and magic:
@@ -224,7 +247,7 @@ def gen_c06(rng, index: int, systematic: bool) -> Dict[str, Any]:
                 items.append(junk_dgram(rng, tag, "unknown_model"))
             else:
                 items.append(junk_dgram(rng, tag, rng.choice(["foreign", "truncated", "extended", "wrong_magic", "empty",
-                                                              "truncated", "extended"])))
+                                                              "truncated", "extended", "selfdescribing", "selfdescribing"])))
     for t, b in enumerate(items):
         steps.append({"kind": "dgram", "port": rng.choice(ports), "payload": b.hex(), "tag": t})
         steps.append({"kind": "sleep", "s": 2.0})
